@@ -24,6 +24,8 @@ func TestMain(m *testing.M) { lib.Main(m) }
 const (
 	findingAddr = "C06-commit-sig-address-unchecked"
 	findingSize = "C06-maxdatabytes-last-valset"
+	findingWrap = "C06-median-unixnano-wrap"
+	findingRoom = "C06-evidence-budget-exceeds-block-room"
 )
 
 func maxVals() int {
@@ -123,7 +125,7 @@ func TestValidateBlock(t *testing.T) {
 		}
 		lib.Case(name, lib.FP("valid", chainFP), true, "kind:valid/accept", sizeClass, changed, "profile:"+b.profile,
 			fmt.Sprintf("initial:%v", e.initial), fmt.Sprintf("pool:%v", b.realPool), "nil-votes-move-median:"+medNil,
-			fmt.Sprintf("apphashlen:%d", len(e.st.AppHash)))
+			fmt.Sprintf("apphashlen:%d", len(e.st.AppHash)), fmt.Sprintf("far-stamped-commits:%v", b.farApplied > 0))
 
 		// perturbations
 		kinds := append([]string{}, headerKinds...)
